@@ -38,7 +38,11 @@ def kindOf (r : RawAlg) : String := match r.f with | none => "pt" | some cs => s
 
 def cmpName (c : Int) : String := if c < 0 then "lt" else if c = 0 then "eq" else "gt"
 
-def checkAlg (op : String) (args res : List String) : Verdict :=
+/-- operands are pool objects that earlier calls may have refined in place: their cached state must still be sound -/
+def operandsOk (args : List String) : Option String :=
+  (args.filterMap pRawAlg?).findSome? (fun r => r.reprOk.map (fun m => s!"operand {showRawAlg r}: {m}"))
+
+def checkAlgCore (op : String) (args res : List String) : Verdict :=
   let cap := 7
   match op, args.mapM pRawAlg?, res with
   | "add", some [a, b], [r] | "sub", some [a, b], [r] | "mul", some [a, b], [r] | "div", some [a, b], [r] =>
@@ -157,5 +161,10 @@ def checkAlg (op : String) (args res : List String) : Verdict :=
       | _, _ => .skip "fuel"
     | _, _ => .skip "parse"
   | _, _, _ => .skip s!"unknown alg op {op}"
+
+def checkAlg (op : String) (args res : List String) : Verdict :=
+  match operandsOk args with
+  | some msg => .viol "state/operand-repr" msg
+  | none => checkAlgCore op args res
 
 end LP.Driver
